@@ -2007,8 +2007,9 @@ impl CommandParser {
                     if i + 1 >= frames.len() {
                         return Err(FerrousError::Command(CommandError::SyntaxError("Missing EX value".to_string())));
                     }
-                    let seconds = Self::extract_string(&frames[i + 1])?.parse::<u64>()
-                        .map_err(|_| FerrousError::Command(CommandError::InvalidIntegerValue))?;
+                    let seconds = Self::extract_string(&frames[i + 1])?.parse::<u64>().ok()
+                        .filter(|n| *n > 0)
+                        .ok_or(FerrousError::Command(CommandError::InvalidIntegerValue))?;
                     options.expiration = Some(Duration::from_secs(seconds));
                     i += 2;
                 }
@@ -2016,8 +2017,9 @@ impl CommandParser {
                     if i + 1 >= frames.len() {
                         return Err(FerrousError::Command(CommandError::SyntaxError("Missing PX value".to_string())));
                     }
-                    let millis = Self::extract_string(&frames[i + 1])?.parse::<u64>()
-                        .map_err(|_| FerrousError::Command(CommandError::InvalidIntegerValue))?;
+                    let millis = Self::extract_string(&frames[i + 1])?.parse::<u64>().ok()
+                        .filter(|n| *n > 0)
+                        .ok_or(FerrousError::Command(CommandError::InvalidIntegerValue))?;
                     options.expiration = Some(Duration::from_millis(millis));
                     i += 2;
                 }
@@ -2134,8 +2136,9 @@ impl CommandParser {
         if frames.len() != 4 {
             return Err(FerrousError::Command(CommandError::WrongNumberOfArguments("SETEX".into())));
         }
-        let seconds = Self::extract_string(&frames[2])?.parse::<u64>()
-            .map_err(|_| FerrousError::Command(CommandError::InvalidIntegerValue))?;
+        let seconds = Self::extract_string(&frames[2])?.parse::<u64>().ok()
+            .filter(|n| *n > 0)
+            .ok_or(FerrousError::Command(CommandError::InvalidIntegerValue))?;
         Ok(StringCommand::SetEx {
             key: Self::extract_bytes(&frames[1])?,
             value: Self::extract_bytes(&frames[3])?,
@@ -2147,8 +2150,9 @@ impl CommandParser {
         if frames.len() != 4 {
             return Err(FerrousError::Command(CommandError::WrongNumberOfArguments("PSETEX".into())));
         }
-        let milliseconds = Self::extract_string(&frames[2])?.parse::<u64>()
-            .map_err(|_| FerrousError::Command(CommandError::InvalidIntegerValue))?;
+        let milliseconds = Self::extract_string(&frames[2])?.parse::<u64>().ok()
+            .filter(|n| *n > 0)
+            .ok_or(FerrousError::Command(CommandError::InvalidIntegerValue))?;
         Ok(StringCommand::PSetEx {
             key: Self::extract_bytes(&frames[1])?,
             value: Self::extract_bytes(&frames[3])?,
